@@ -356,9 +356,14 @@ C_<TN_, TA_, SG_, TH_, TS_...>::deepForwardActive(Control& control,
 	const Prong requested = compoRequested(control);
 
 	if (requested == INVALID_SHORT) {
-		const Prong active = compoActive(control);
+		if (request.destination == HEAD_ID)
+			// reached through orthogonal regions only: this region is the destination
+			deepRequest(control, request);
+		else {
+			const Prong active = compoActive(control);
 
-		SubStates::wideForwardActive (control, request, active);
+			SubStates::wideForwardActive(control, request, active);
+		}
 	} else
 		SubStates::wideForwardRequest(control, request, requested);
 }
